@@ -224,7 +224,7 @@ def initial_state(model):
     return {p: float(declared_value(model, p)) for p in state_vars(model)}
 
 
-def spec_rhs(model, y, params=None, hist=None, t=0.0, edge_now=None):
+def spec_rhs(model, y, params=None, hist=None, t=0.0, edge_now=None, ext=None):
     """Reference vector field.  y: {state var path: value}; params: overrides {var path: value}.
     Returns (dy: {state var path: value}, values: {every variable path: value}).
     Delayed edges (hist given): the source value is hist(t - d)[src]; otherwise the current value."""
@@ -289,12 +289,16 @@ def spec_rhs(model, y, params=None, hist=None, t=0.0, edge_now=None):
                     if not alg_ready(e["src"]):
                         ok = False
                     terms.append(("edge", e["src"], e["w"], e if (edge_now is not None or e.get("_op")) else e.get("d")))
+                if ext and path in ext:
+                    terms.append(("ext", None, ext[path], None))
                 if not ok:
                     break
                 if terms:
                     tot = 0.0
                     for kind_, src, w, d in terms:
-                        if kind_ == "edge" and isinstance(d, dict) and d.get("_op"):
+                        if kind_ == "ext":
+                            tot = tot + w
+                        elif kind_ == "edge" and isinstance(d, dict) and d.get("_op"):
                             # edge template: the (algebraic) edge operator is evaluated per edge on its own source
                             eop = d["_op"]
                             sv = edge_now(src, d, val_of) if edge_now is not None else val_of(src)
@@ -386,11 +390,8 @@ def spec_fixed_step(model, T, dt, dts, solver="euler", y0=None, params=None, inp
 
     def rhs(yv, i, chain_state):
         p2 = dict(params or {})
-        dy, vals = spec_rhs(model, yv, p2, t=i, edge_now=make_edge_now(i, chain_state))
-        if inputs:
-            # an extrinsic input adds to whatever else drives the variable: re-evaluate with the default replaced is not
-            # needed for the linear test operators used with inputs (see rtc.gen): they enter additively with coefficient c
-            raise NotImplementedError
+        ext = {pth: float(arr[min(i, len(arr) - 1)]) for pth, arr in inputs.items()} if inputs else None
+        dy, vals = spec_rhs(model, yv, p2, t=i, edge_now=make_edge_now(i, chain_state), ext=ext)
         dch = {}
         for j, st in chain_state.items():
             e = edges[j]
